@@ -18,8 +18,9 @@ import (
 
 type gaugeJ struct {
 	ID     int64   `json:"id"`
-	Kind   string  `json:"kind"` // "reg" | "swap"
-	Denom  string  `json:"denom"`
+	Kind   string  `json:"kind"`   // "reg" | "swap"
+	Denom  string  `json:"denom"`  // denom of the deposit
+	DDenom string  `json:"ddenom"` // denom of the distributed total (differs after a change of the swap-fee distribution denom)
 	Dep    []int64 `json:"dep"`
 	Dist   []int64 `json:"dist"`
 	Trig   int64   `json:"trig"`
@@ -40,21 +41,23 @@ type epochJ struct {
 }
 
 type poolJ struct {
-	ID       int64   `json:"id"`
-	Exists   bool    `json:"exists"`
-	Disabled bool    `json:"disabled"`
-	Dis      bool    `json:"dis"`
-	QOn      bool    `json:"qOn"`
-	BOn      bool    `json:"bOn"`
-	QAct     bool    `json:"qAct"`
-	BAct     bool    `json:"bAct"`
-	QW       []int64 `json:"qW"`
-	QD       []int64 `json:"qD"`
-	BW       []int64 `json:"bW"`
-	BD       []int64 `json:"bD"`
-	Rx       []int64 `json:"rx"`
-	Ry       []int64 `json:"ry"`
-	Ps       []int64 `json:"ps"`
+	ID       int64              `json:"id"`
+	Exists   bool               `json:"exists"`
+	Disabled bool               `json:"disabled"`
+	Dis      bool               `json:"dis"`
+	QOn      bool               `json:"qOn"`
+	BOn      bool               `json:"bOn"`
+	QAct     bool               `json:"qAct"`
+	BAct     bool               `json:"bAct"`
+	QW       []int64            `json:"qW"`
+	QD       []int64            `json:"qD"`
+	BW       []int64            `json:"bW"`
+	BD       []int64            `json:"bD"`
+	Rx       []int64            `json:"rx"`
+	Ry       []int64            `json:"ry"`
+	Ps       []int64            `json:"ps"`
+	Coll     map[string][]int64 `json:"coll"`  // balances of the pair's swap-fee collector
+	Multi    bool               `json:"multi"` // the pair has more than one pool (the collector's balance is shared by value)
 }
 
 type posJ struct {
@@ -82,8 +85,15 @@ type extJ struct {
 	Count  int64   `json:"count"`
 }
 
+type burnJ struct {
+	Num int64 `json:"num"`
+	Den int64 `json:"den"`
+}
+
 type stJ struct {
 	Now    int64              `json:"now"`
+	Distr  string             `json:"distr"` // liquidity generic param SwapFeeDistrDenom of the app
+	Burn   burnJ              `json:"burn"`  // SwapFeeBurnRate as num/den
 	Cust   map[string][]int64 `json:"cust"`
 	Denoms []string           `json:"denoms"`
 	Gauges []gaugeJ           `json:"gauges"`
@@ -109,6 +119,10 @@ func (fx *fixture) project(e *sim.Env) stJ {
 	app, ctx := e.App, e.Ctx
 	s := stJ{Now: rel(ctx.BlockTime()), Cust: map[string][]int64{}, Gauges: []gaugeJ{}, Epochs: []epochJ{}, Pools: []poolJ{},
 		Users: []userJ{}, Ext: []extJ{}, Denoms: append([]string{}, fx.rewards...)}
+	if gp, err := app.LiquidityKeeper.GetGenericParams(ctx, fx.app); err == nil {
+		s.Distr = gp.SwapFeeDistrDenom
+		s.Burn = burnJ{Num: gp.SwapFeeBurnRate.MulInt64(1000).TruncateInt64(), Den: 1000}
+	}
 	radr := sim.ModAddr(rewardstypes.ModuleName)
 	for _, d := range fx.rewards {
 		s.Cust[d] = lim(app.BankKeeper.GetBalance(ctx, radr, d).Amount)
@@ -116,7 +130,7 @@ func (fx *fixture) project(e *sim.Env) stJ {
 	gs := app.Rewardskeeper.GetAllGauges(ctx)
 	sort.Slice(gs, func(i, j int) bool { return gs[i].Id < gs[j].Id })
 	for _, g := range gs {
-		j := gaugeJ{ID: int64(g.Id), Kind: "reg", Denom: g.DepositAmount.Denom, Dep: lim(g.DepositAmount.Amount), Dist: lim(g.DistributedAmount.Amount),
+		j := gaugeJ{ID: int64(g.Id), Kind: "reg", Denom: g.DepositAmount.Denom, DDenom: g.DistributedAmount.Denom, Dep: lim(g.DepositAmount.Amount), Dist: lim(g.DistributedAmount.Amount),
 			Trig: int64(g.TriggeredCount), Tot: int64(g.TotalTriggers), Active: g.IsActive, Start: rel(g.StartTime), Dur: int64(g.TriggerDuration / time.Second),
 			Childs: []int64{}}
 		if g.ForSwapFee {
@@ -144,9 +158,16 @@ func (fx *fixture) project(e *sim.Env) stJ {
 	for i := range fx.pools {
 		pool, found := app.LiquidityKeeper.GetPool(ctx, fx.app, fx.pools[i].Id)
 		pj := poolJ{ID: int64(fx.pools[i].Id), Exists: found, Disabled: found && pool.Disabled, QW: []int64{}, QD: []int64{}, BW: []int64{}, BD: []int64{},
-			Rx: []int64{}, Ry: []int64{}, Ps: []int64{}}
+			Rx: []int64{}, Ry: []int64{}, Ps: []int64{}, Coll: map[string][]int64{}}
+		for _, d := range fx.rewards {
+			pj.Coll[d] = []int64{}
+		}
 		if found {
 			pair, _ := app.LiquidityKeeper.GetPair(ctx, fx.app, pool.PairId)
+			for _, d := range fx.rewards {
+				pj.Coll[d] = lim(app.BankKeeper.GetBalance(ctx, pair.GetSwapFeeCollectorAddress(), d).Amount)
+			}
+			pj.Multi = len(app.LiquidityKeeper.GetPoolsByPair(ctx, fx.app, pair.Id)) > 1
 			rx, ry := app.LiquidityKeeper.GetPoolBalances(ctx, pool)
 			ps := app.LiquidityKeeper.GetPoolCoinSupply(ctx, pool)
 			pinf[i] = pinfo{rx.Amount, ry.Amount, ps, true}
